@@ -174,6 +174,16 @@ func c20Mappings(level int) []c20Mapping {
 		c.Mappings = []genlab.Mapping{{ID: ids[0], Output: "dflt/a.go"}, {ID: ids[1], Output: "dflt/b.go", Root: "RootOfB"}}
 		return c
 	}})
+	// no default package at all (-p is not given): every id gets its package from --schema-package
+	ms = append(ms, c20Mapping{"no-default-package", func(ids []string) genlab.Cfg {
+		c := base()
+		c.Package = ""
+		for i, id := range ids {
+			p := string(rune('p' + i/2))
+			c.Mappings = append(c.Mappings, genlab.Mapping{ID: id, Package: "example.com/m/" + p, Output: fmt.Sprintf("%s/f%d.go", p, i)})
+		}
+		return c
+	}})
 	if level >= 1 {
 		ms = append(ms,
 			c20Mapping{"one-file", func(ids []string) genlab.Cfg { c := base(); c.Output = "all/one.go"; return c }},
